@@ -509,38 +509,41 @@ def applyField (cur : Option Nat) : Mod → Option (Option Nat)
 /-- attributes of `structuralAttrs` that `applyUserMod` does not apply at all -/
 def frozenAttrs : List Nat := [A.Uuid, A.SyncCookie, A.SyncYieldAuthority]
 
+/-- the attribute a modification names -/
+def umodAttr : Mod → Nat
+  | .present a _ | .removed a _ | .purged a | .set a _ | .assert a _ => a
+
+def isAssert : Mod → Bool
+  | .assert _ _ => true
+  | _ => false
+
+/-- `apply_modlist` on a value set kept as a list (`class`, `sync_class`) -/
+def applyList (cur : List Nat) : Mod → List Nat
+  | .present _ v => union cur [v]
+  | .removed _ v => cur.filter (· != v)
+  | .purged _ => []
+  | .set _ vs => vs
+  | .assert _ _ => cur
+
+/-- `apply_modlist` on the attribute map -/
+def applyAttr (a : Nat) (m : List (Nat × List Nat)) : Mod → List (Nat × List Nat)
+  | .present _ v => addA a [v] m
+  | .removed _ v => remA a v m
+  | .purged _ => purgeA a m
+  | .set _ vs => setA a vs m
+  | .assert _ _ => m
+
 /-- `apply_modlist`, one modification, on the tracked part of the entry. `uuid` (refused by the
 Base plugin, C20), `sync_cookie` and `sync_yield_authority` are not applied (`none`). -/
 def applyUserMod (e : Entry) (m : Mod) : Option Entry :=
-  let a := match m with
-    | .present a _ | .removed a _ | .purged a | .set a _ | .assert a _ => a
-  if frozenAttrs.contains a then
-    (match m with | .assert _ _ => some e | _ => none)
-  else if a == A.SyncParentUuid then
+  if frozenAttrs.contains (umodAttr m) then (if isAssert m then some e else none)
+  else if umodAttr m == A.SyncParentUuid then
     (applyField e.syncParent m).map fun p => { e with syncParent := p }
-  else if a == A.SyncExternalId then
+  else if umodAttr m == A.SyncExternalId then
     (applyField e.extId m).map fun x => { e with extId := x }
-  else if a == A.Class then
-    match m with
-    | .present _ v => some { e with classes := union e.classes [v] }
-    | .removed _ v => some { e with classes := e.classes.filter (· != v) }
-    | .purged _ => some { e with classes := [] }
-    | .set _ vs => some { e with classes := vs }
-    | .assert _ _ => some e
-  else if a == A.SyncClass then
-    match m with
-    | .present _ v => some { e with syncClasses := union e.syncClasses [v] }
-    | .removed _ v => some { e with syncClasses := e.syncClasses.filter (· != v) }
-    | .purged _ => some { e with syncClasses := [] }
-    | .set _ vs => some { e with syncClasses := vs }
-    | .assert _ _ => some e
-  else
-    match m with
-    | .present _ v => some { e with attrs := addA a [v] e.attrs }
-    | .removed _ v => some { e with attrs := remA a v e.attrs }
-    | .purged _ => some { e with attrs := purgeA a e.attrs }
-    | .set _ vs => some { e with attrs := setA a vs e.attrs }
-    | .assert _ _ => some e
+  else if umodAttr m == A.Class then some { e with classes := applyList e.classes m }
+  else if umodAttr m == A.SyncClass then some { e with syncClasses := applyList e.syncClasses m }
+  else some { e with attrs := applyAttr (umodAttr m) e.attrs m }
 
 def applyUserMods : Entry → List Mod → Option Entry
   | e, [] => some e
